@@ -145,6 +145,9 @@ fn build(c: &Cell, url: &str, proxy: Option<ProxySettings>) -> Built {
             apply_s(&mut s);
             let alive = s.post(url);
             s.max_redirections(7);
+            // (spelling out a default that has nothing to do with TLS)
+            #[cfg(feature = "decodes")]
+            s.allow_compression(true);
             let alive2 = s.get(url);
             let target = s.post(url).read_timeout(std::time::Duration::from_secs(5)).follow_redirects(true);
             drop((alive, alive2));
